@@ -17,7 +17,7 @@ def _ex(ex_field):
     return ex_field.value
 
 
-@contract(M + '_BoundedInteger.check', properties=P3)
+@contract(M + '_BoundedInteger.check', properties=P3, raises=[ValueError])
 class BoundedInteger_check:
     params = {'self': Obj(ir._BoundedInteger, proper=True), 'val': AnyVal()}
 
@@ -39,7 +39,7 @@ class BoundedInteger_check:
         return SI.check_outcome(SI.ir_int_accepts(self, val))
 
 
-@contract(M + '_BoundedFloat.check', properties=P3)
+@contract(M + '_BoundedFloat.check', properties=P3, raises=[ValueError])
 class BoundedFloat_check:
     params = {'self': Obj(ir._BoundedFloat, proper=True), 'val': AnyVal()}
 
@@ -58,7 +58,7 @@ class BoundedFloat_check:
         return SI.check_outcome(SI.ir_float_accepts(self, val))
 
 
-@contract(M + 'String.check', properties=P3)
+@contract(M + 'String.check', properties=P3, raises=[ValueError])
 class String_check:
     params = {'self': Obj(ir.String), 'val': AnyVal()}
 
@@ -78,7 +78,7 @@ class String_check:
         return SI.check_outcome(SI.ir_string_accepts(self, val))
 
 
-@contract(M + 'Boolean.check', properties=P3)
+@contract(M + 'Boolean.check', properties=P3, raises=[ValueError])
 class Boolean_check:
     params = {'self': Obj(ir.Boolean), 'val': AnyVal()}
 
@@ -89,7 +89,7 @@ class Boolean_check:
         return SI.check_outcome(SI.ir_boolean_accepts(val))
 
 
-@contract(M + 'Bytes.check', properties=P3)
+@contract(M + 'Bytes.check', properties=P3, raises=[ValueError])
 class Bytes_check:
     params = {'self': Obj(ir.Bytes), 'val': AnyVal()}
 
@@ -100,7 +100,7 @@ class Bytes_check:
         return SI.check_outcome(SI.ir_bytes_accepts(val))
 
 
-@contract(M + 'Void.check', properties=P3)
+@contract(M + 'Void.check', properties=P3, raises=[ValueError])
 class Void_check:
     params = {'self': Obj(ir.Void), 'val': AnyVal()}
 
@@ -109,3 +109,177 @@ class Void_check:
 
     def expected(self, val):
         return SI.check_outcome(val is None)
+
+
+# =====================================================================================
+# Type arguments (C01: "legal ... type arguments"; C03: only ParameterError leaves a constructor, which
+# _instantiate_data_type turns into the spec error)
+# =====================================================================================
+PA = ['C01', 'C03', 'C10']
+
+
+def _fresh(cls):
+    return {'k': 'obj', 'cls': cls.__module__ + ':' + cls.__qualname__, 'slots': {}, 'id': 1}
+
+
+def _pick(rng, pool):
+    return N.describe(rng.choice(pool))
+
+
+@contract(M + '_BoundedInteger.__init__', properties=PA, raises=[ir.ParameterError])
+class BoundedInteger_init:
+    """min_value / max_value are integers inside the range of the type, or the constructor refuses with
+    ParameterError; on success the object satisfies what `check` relies on"""
+    params = {'self': Obj(ir._BoundedInteger, proper=True, fresh=True), 'min_value': AnyVal(), 'max_value': AnyVal()}
+
+    def requires(self, min_value, max_value):
+        return SI.grammar_value(min_value) and SI.grammar_value(max_value)
+
+    def expected(self, min_value, max_value):
+        return SI.param_outcome(SI.ir_int_args_ok(self, min_value, max_value))
+
+    def ensures(self, min_value, max_value, result, exc):
+        return exc is not None or (self.min_value is min_value and self.max_value is max_value
+                                   and SI.ir_int_params_ok(self))
+
+    def gen(rng):
+        cls = rng.choice([ir.Int32, ir.UInt32, ir.Int64, ir.UInt64])
+        pool = [None, None, 0, 1, -1, True, cls.minimum, cls.minimum - 1, cls.maximum, cls.maximum + 1, 1.0, '1', 5, [1]]
+        return {'self': _fresh(cls), 'min_value': _pick(rng, pool), 'max_value': _pick(rng, pool)}
+
+
+@contract(M + '_BoundedFloat.__init__', properties=PA, raises=[ir.ParameterError])
+class BoundedFloat_init:
+    """min_value / max_value are real numbers representable as doubles inside the range of the type; they
+    are stored as floats"""
+    params = {'self': Obj(ir._BoundedFloat, proper=True, fresh=True), 'min_value': AnyVal(), 'max_value': AnyVal()}
+
+    def requires(self, min_value, max_value):
+        return SI.grammar_value(min_value) and SI.grammar_value(max_value)
+
+    def expected(self, min_value, max_value):
+        return SI.param_outcome(SI.ir_float_args_ok(self, min_value, max_value))
+
+    def ensures(self, min_value, max_value, result, exc):
+        return exc is not None or (
+            ((min_value is None and self.min_value is None)
+             or (min_value is not None and isinstance(self.min_value, float)
+                 and S.same_float(self.min_value, S.as_float(min_value))))
+            and ((max_value is None and self.max_value is None)
+                 or (max_value is not None and isinstance(self.max_value, float)
+                     and S.same_float(self.max_value, S.as_float(max_value))))
+            and SI.ir_float_params_ok(self))
+
+    def gen(rng):
+        cls = rng.choice([ir.Float32, ir.Float64])
+        pool = [None, None, 0, 1, -1, True, 1.5, -1.5, 3.40282e38, 3.4028200000000004e+38, -3.40282e38,
+                -3.4028200000000004e+38, 1e300, 10 ** 400, -10 ** 400, '1', float('nan'), float('inf'), [1.0]]
+        return {'self': _fresh(cls), 'min_value': _pick(rng, pool), 'max_value': _pick(rng, pool)}
+
+
+@contract(M + 'String.__init__', properties=PA, raises=[ir.ParameterError])
+class String_init:
+    params = {'self': Obj(ir.String, fresh=True), 'min_length': AnyVal(), 'max_length': AnyVal(), 'pattern': AnyVal()}
+
+    def requires(self, min_length, max_length, pattern):
+        return SI.grammar_value(min_length) and SI.grammar_value(max_length) and SI.grammar_value(pattern)
+
+    def expected(self, min_length, max_length, pattern):
+        return SI.param_outcome(SI.ir_string_args_ok(min_length, max_length, pattern))
+
+    def ensures(self, min_length, max_length, pattern, result, exc):
+        return exc is not None or (self.min_length is min_length and self.max_length is max_length
+                                   and self.pattern is pattern and SI.ir_string_params_ok(self))
+
+    def gen(rng):
+        pool = [None, None, 0, 1, 2, 3, -1, True, 1.0, 'a', [1]]
+        pats = [None, None, '', 'a', 'a*', '(', '[', 'a|b', 3, 0, 1.5, ['a'], True, False]
+        return {'self': _fresh(ir.String), 'min_length': _pick(rng, pool), 'max_length': _pick(rng, pool),
+                'pattern': _pick(rng, pats)}
+
+
+@contract(M + 'Timestamp.__init__', properties=PA, raises=[ir.ParameterError])
+class Timestamp_init:
+    params = {'self': Obj(ir.Timestamp, fresh=True), 'fmt': AnyVal()}
+
+    def requires(self, fmt):
+        return SI.grammar_value(fmt)
+
+    def expected(self, fmt):
+        return SI.param_outcome(isinstance(fmt, str))
+
+    def ensures(self, fmt, result, exc):
+        return exc is not None or self.format is fmt
+
+    def gen(rng):
+        return {'self': _fresh(ir.Timestamp), 'fmt': _pick(rng, ['%Y', '', None, 3, 1.5, True, ['%Y']])}
+
+
+@contract(M + 'List.__init__', properties=PA, raises=[ir.ParameterError])
+class List_init:
+    params = {'self': Obj(ir.List, fresh=True), 'data_type': AnyVal(), 'min_items': AnyVal(), 'max_items': AnyVal()}
+
+    def requires(self, data_type, min_items, max_items):
+        return SI.grammar_value(min_items) and SI.grammar_value(max_items)
+
+    def expected(self, data_type, min_items, max_items):
+        return SI.param_outcome(SI.ir_list_args_ok(min_items, max_items))
+
+    def ensures(self, data_type, min_items, max_items, result, exc):
+        return exc is not None or (self.data_type is data_type and self.min_items is min_items
+                                   and self.max_items is max_items)
+
+    def gen(rng):
+        pool = [None, None, 0, 1, 2, 3, -1, True, 1.0, 'a', [1], 2.5]
+        return {'self': _fresh(ir.List), 'data_type': N.describe(ir.String()), 'min_items': _pick(rng, pool),
+                'max_items': _pick(rng, pool)}
+
+
+@contract(M + 'Map.__init__', properties=PA, raises=[ir.ParameterError])
+class Map_init:
+    """only String (possibly with arguments) is a legal key type"""
+    params = {'self': Obj(ir.Map, fresh=True), 'key_data_type': AnyVal(), 'value_data_type': AnyVal()}
+
+    def expected(self, key_data_type, value_data_type):
+        return SI.param_outcome(isinstance(key_data_type, ir.String))
+
+    def ensures(self, key_data_type, value_data_type, result, exc):
+        return exc is not None or (self.key_data_type is key_data_type and self.value_data_type is value_data_type)
+
+    def gen(rng):
+        k = rng.choice([ir.String(), ir.String(min_length=1), ir.Int32(), ir.Boolean(), ir.Bytes(), ir.Nullable(ir.String()), None, 3])
+        return {'self': _fresh(ir.Map), 'key_data_type': N.describe(k), 'value_data_type': N.describe(ir.Int64())}
+
+
+@contract(M + 'Nullable.check', properties=['C10', 'C03', 'C01'])
+class Nullable_check:
+    """null is always accepted; anything else is the inner type's business (modular: the inner check is
+    called, never inlined)"""
+    params = {'self': Obj(ir.Nullable), 'val': AnyVal()}
+
+    def requires(self, val):
+        return (SI.grammar_value(val) and isinstance(self.data_type, ir.Boolean))
+
+    def expected(self, val):
+        return SI.check_outcome(val is None or SI.ir_boolean_accepts(val))
+
+    def gen(rng):
+        return {'self': N.describe(ir.Nullable(ir.Boolean())), 'val': _pick(rng, [None, True, False, 0, 1, 'a', 1.5, [True]])}
+
+
+@contract(M + 'List._check_list_container', properties=['C10', 'C03', 'C01'])
+class List_check_list_container:
+    params = {'self': Obj(ir.List), 'val': AnyVal()}
+
+    def requires(self, val):
+        return (SI.grammar_value(val) and S.opt_int_ge(self.min_items, 0) and S.opt_int_ge(self.max_items, 1))
+
+    def expected(self, val):
+        return SI.check_outcome(SI.ir_list_accepts_container(self, val))
+
+    def gen(rng):
+        lo = rng.choice([None, 0, 1, 2]); hi = rng.choice([None, 1, 2, 3])
+        if lo and hi and hi < lo:
+            lo, hi = hi, lo
+        return {'self': N.describe(ir.List(ir.String(), min_items=lo, max_items=hi)),
+                'val': _pick(rng, [[], [1], [1, 2], [1, 2, 3], [1, 2, 3, 4], None, 'ab', 3, {'a': 1}, True])}
